@@ -31,6 +31,13 @@ def grammars():
                                rule('n_', pat(['1', '2'], 1, True), typ=['int']), rule('w_', pat(['a', 'b'], 1, True), typ=['str'])),
         'method-names': grammar(rule('s', seq(named('load', call('y')), namedlist('clone', star(call('y')))), typ=['Root']), leaf()),
         'optional-node': grammar(rule('s', seq(named('o', opt(call('y'))), named('t', alt(call('y'), p))), typ=['Root']), leaf()),
+        # nodes between two tokens in an un-named sequence, in a list, in a named group
+        'token-delimited': grammar(rule('s', seq(p, call('y'), p), typ=['Paren']), leaf()),
+        'token-delimited-list': grammar(rule('s', seq(a, star(call('y')), b), typ=['Block']), leaf()),
+        'token-delimited-named': grammar(rule('s', named('args', seq(p, star(call('y')), p)), typ=['Call']), leaf()),
+        # a class that is one rule's own type and another rule's declared base, the base chain declared by the earlier rule
+        'own-type-and-base': grammar(rule('s', seq(named('l', call('lit')), named('t', opt(call('str_')))), typ=['Root']),
+                                     rule('lit', named('v', ab), typ=['Literal', 'Expr']), rule('str_', named('w', p), typ=['String', 'Literal'])),
         'deep': grammar(rule('s', seq(named('c', call('m')), opt(b)), typ=['Root']), rule('m', seq(named('d', call('y')), named('e', star(call('y')))), typ=['Mid']), leaf()),
     }
 
@@ -95,6 +102,23 @@ def strip_nodes(x):
     return x
 
 
+def mirror(node_view, plain):
+    """-> True if the node's attribute map does NOT mirror the plain AST.  Attributes a class inherits from a declared base class
+    (another rule's names) are present with None and are not part of this rule's named elements: they are ignored."""
+    if isinstance(node_view, dict) and isinstance(plain, dict):
+        for k, v in node_view.items():
+            if k not in plain:
+                if v is None:
+                    continue
+                return True
+            if mirror(v, plain[k]):
+                return True
+        return any(k not in node_view for k in plain)
+    if isinstance(node_view, list) and isinstance(plain, list):
+        return len(node_view) != len(plain) or any(mirror(a, b) for a, b in zip(node_view, plain))
+    return node_view != plain
+
+
 def run(tier):
     ck = Check('C07', tier)
     texts = all_texts(['a', 'b', '+', ' '], 3 if tier == 'quick' else 4) + [list(t) for t in ['a b + a', 'ab ba', 'a+b+a', '12 ab', '1 a', '21', 'a b a b']]
@@ -149,7 +173,7 @@ def run(tier):
                     continue
                 # mirror of the plain AST of the same input
                 if o['plain']['k'] == 'ok' and c['label'] not in ('builtin-int',):
-                    if strip_nodes(got['v']) != o['plain']['v']:
+                    if mirror(strip_nodes(got['v']), o['plain']['v']):
                         bad(f"attributes differ from the plain AST: {strip_nodes(got['v'])!r} vs {o['plain']['v']!r}", o['plain']['v'])
                 for nav in (got.get('nav') or []) if c['label'] != 'method-names' else []:
                     bad('navigation: ' + nav, 'children/parent/walkers cover exactly the nodes stored in attributes')
